@@ -247,6 +247,22 @@ def build(case, o):
             kwargs["selection"] = np.repeat(sel, 2)[::2]
         else:
             kwargs["selection"] = sel.copy()
+    if periodic and case.get("box_reused") and (case.get("sel") is None or sel.any()):
+        # history: build a periodic cell list for a *scaled* box held in the very same array
+        # object, then overwrite that array in place with the real box
+        o.label("box_object_reused")
+        scale = np.float32(1.75)
+        if "box" in kwargs:
+            holder = kwargs["box"]
+            real = holder.copy()
+            holder[...] = real * scale
+            CellList(arg0, cs * float(scale), **kwargs)
+            holder[...] = real
+        else:
+            real = arg0.box.copy()
+            arg0.box[...] = real * scale
+            CellList(arg0, cs * float(scale), **kwargs)
+            arg0.box[...] = real
 
     o.label("in_" + kind, "periodic" if periodic else "open")
     if case.get("sel") is None:
@@ -902,6 +918,9 @@ def st_base(draw, tier, periodic, fine=False):
             case["box_via"] = draw(st.sampled_from(["attr", "attr", "arg", "both"]))
         else:
             case["box_via"] = "arg"
+        # the same box array object served an earlier cell list with other values and was then
+        # updated in place (successive frames of a trajectory): results must not depend on that
+        case["box_reused"] = bool(periodic and draw(st.sampled_from([False, False, True])))
 
     # cell size
     if periodic:
